@@ -3,6 +3,9 @@ open Emboss.Json
 #print axioms C18_roundtrip
 #print axioms C18_roundtrip_ir
 #print axioms C18_to_json_idempotent
+#print axioms C18_json_text_roundtrip
+#print axioms C18_to_json_idempotent_text
+#print axioms C18_to_json_idempotent_text_ir
 #print axioms C18_location_roundtrip
 #print axioms C18_location_from_str_ok
 #print axioms C18_bigint
